@@ -8,11 +8,11 @@ FORMS_Q = {"ValueOpts": '{"absent", "a_lz", "icx_up"}', "NidOpts": '{"absent", "
            "NonceOpts": '{"absent", "null", "a_up"}', "StepOpts": '{"1f4", "1f4_up"}', "TsOpts": '{"icx"}',
            "FromOpts": '{"canon", "upper"}', "ToOpts": '{"canon", "noprefix", "cx"}', "DataOpts": '{"absent"}',
            "DTypeOpts": '{"absent"}', "MemoOpts": "{FALSE, TRUE}", "HashOpts": "{FALSE}"}
-FORMS_T = {"ValueOpts": '{"absent", "null", "0", "0_lz", "a_lz", "a_lzup", "icx_up"}', "NidOpts": '{"absent", "null", "1", "a_lz"}',
-           "NonceOpts": '{"absent", "null", "1", "a_up"}', "StepOpts": '{"1f4", "1f4_up", "icx_lz"}',
+FORMS_T = {"ValueOpts": '{"absent", "null", "0_lz", "a_lzup", "icx_up"}', "NidOpts": '{"absent", "1", "a_lz"}',
+           "NonceOpts": '{"absent", "null", "a_up"}', "StepOpts": '{"1f4", "1f4_up", "icx_lz"}',
            "TsOpts": '{"icx", "icx_lz"}', "FromOpts": '{"canon", "upper", "noprefix"}',
-           "ToOpts": '{"canon", "upper", "noprefix", "cx"}', "DataOpts": '{"absent", "hex"}',
-           "DTypeOpts": '{"absent", "message"}', "MemoOpts": "{FALSE, TRUE}", "HashOpts": "{FALSE}"}
+           "ToOpts": '{"canon", "upper", "noprefix", "cx"}', "DataOpts": '{"absent"}',
+           "DTypeOpts": '{"absent"}', "MemoOpts": "{FALSE, TRUE}", "HashOpts": "{FALSE}"}
 DATA_Q = {"ValueOpts": '{"absent", "a"}', "NidOpts": '{"1"}', "NonceOpts": '{"absent", "1"}', "StepOpts": '{"1f4"}',
           "TsOpts": '{"icx"}', "FromOpts": '{"canon"}', "ToOpts": '{"canon"}', "DataOpts": ALL_DATA,
           "DTypeOpts": '{"absent", "message", "call"}', "MemoOpts": "{FALSE}", "HashOpts": "{FALSE, TRUE}"}
